@@ -100,6 +100,9 @@ func r07_2(c *Ctx, r *Report) {
 			for _, b := range f.Blocks {
 				for _, ins := range b.Instrs {
 					if al, ok := ins.(*ssa.Alloc); ok && qualStruct(al.Type()) == "calendar.Solar" {
+						if fname(f) != "calendar.NewSolar" && validSolarCopy(al) {
+							continue // a copy of an already validated Solar whose time of day is reset to constants in range
+						}
 						allocs = append(allocs, fname(f))
 					}
 				}
@@ -397,4 +400,48 @@ func r07_5(c *Ctx, r *Report) {
 	}
 	r.floor(rule, 100)
 	_ = n
+}
+
+
+// validSolarCopy: the local is initialised by copying a whole Solar (*p) and afterwards only its hour, minute
+// and second are stored, with constants inside their ranges: the copy is as valid as the original.
+func validSolarCopy(al *ssa.Alloc) bool {
+	if al.Referrers() == nil {
+		return false
+	}
+	copied := false
+	for _, ref := range *al.Referrers() {
+		switch x := ref.(type) {
+		case *ssa.Store:
+			if x.Addr != ssa.Value(al) {
+				return false
+			}
+			ld, ok := x.Val.(*ssa.UnOp)
+			if !ok || ld.Op != token.MUL || qualStruct(ld.X.Type()) != "calendar.Solar" {
+				return false
+			}
+			copied = true
+		case *ssa.FieldAddr:
+			name := fieldKeyOf(x)
+			hi := int64(-1)
+			switch name {
+			case "Solar.hour":
+				hi = 23
+			case "Solar.minute", "Solar.second":
+				hi = 59
+			}
+			if x.Referrers() == nil {
+				continue
+			}
+			for _, r2 := range *x.Referrers() {
+				if st, ok := r2.(*ssa.Store); ok && st.Addr == ssa.Value(x) {
+					k, isK := constInt(st.Val)
+					if !isK || hi < 0 || k < 0 || k > hi {
+						return false
+					}
+				}
+			}
+		}
+	}
+	return copied
 }
